@@ -328,23 +328,40 @@ Proof.
   apply sp_null; [reflexivity|]. rewrite Hp. apply (scan_word_hit cls Lexer.s_null); [apply wbb_colon|apply uw_nl].
 Qed.
 
-(* ---- numbers: -?digits  and  -?digits.digits ---- *)
+(* ---- numbers:  -?digits(.digits)?([eE][+-]?digits)?  ---- *)
 Definition digs (s : str) : bool := match s with [] => false | _ => forallb is_digit s end.
 Lemma digs_spec s : digs s = true -> s <> [] /\ forallb is_digit s = true.
 Proof. destruct s; [discriminate|]. intros H. split; [discriminate|exact H]. Qed.
 
+Definition frac_ok (fr : str) : bool := match fr with [] => true | x :: f => N.eqb x c_dot && digs f end.
+Definition is_e (c : N) : bool := N.eqb c 101 || N.eqb c 69.
+Definition is_sign (c : N) : bool := N.eqb c c_plus || N.eqb c c_dash.
+Definition exp_ok (ex : str) : bool :=
+  match ex with
+  | [] => true
+  | e :: r => is_e e && match r with c :: r' => if is_sign c then digs r' else digs r | [] => false end
+  end.
 Definition num_body_ok (s : str) : bool :=
-  digs (takeb is_digit s) && match dropb is_digit s with [] => true | x :: f => N.eqb x c_dot && digs f end.
+  digs (takeb is_digit s) &&
+  match dropb is_digit s with
+  | [] => true
+  | x :: f => if N.eqb x c_dot then digs (takeb is_digit f) && exp_ok (dropb is_digit f) else exp_ok (x :: f)
+  end.
 Definition num_ok (s : str) : bool :=
   match s with c :: r => if N.eqb c c_dash then num_body_ok r else num_body_ok s | [] => false end.
 
 Lemma num_body_shape s : num_body_ok s = true ->
-  exists d, digs d = true /\ (s = d \/ exists f, digs f = true /\ s = d ++ c_dot :: f).
+  exists d fr ex, s = d ++ fr ++ ex /\ digs d = true /\ frac_ok fr = true /\ exp_ok ex = true.
 Proof.
-  unfold num_body_ok. intros H. apply andb_true_iff in H as [H1 H2]. exists (takeb is_digit s). split; [exact H1|].
+  unfold num_body_ok. intros H. apply andb_true_iff in H as [H1 H2].
   pose proof (takeb_dropb is_digit s) as E. destruct (dropb is_digit s) as [|x f].
-  - left. rewrite app_nil_r in E. symmetry; exact E.
-  - right. apply andb_true_iff in H2 as [Hx Hf]. apply N.eqb_eq in Hx. subst x. exists f. split; [exact Hf|symmetry; exact E].
+  - exists (takeb is_digit s), [], []. repeat split; [rewrite !app_nil_r in *; symmetry; exact E|exact H1].
+  - destruct (N.eqb_spec x c_dot) as [->|Hx].
+    + apply andb_true_iff in H2 as [H2 H3]. pose proof (takeb_dropb is_digit f) as Ef.
+      exists (takeb is_digit s), (c_dot :: takeb is_digit f), (dropb is_digit f).
+      split; [cbn [app]; rewrite Ef; symmetry; exact E|]. split; [exact H1|]. split; [|exact H3].
+      cbn [frac_ok]. rewrite N.eqb_refl. exact H2.
+    + exists (takeb is_digit s), [], (x :: f). split; [symmetry; exact E|]. split; [exact H1|]. split; [reflexivity|exact H2].
 Qed.
 
 Lemma digits1_app d y r : digs d = true -> u_digit cls y = false -> digits1 cls (d ++ y :: r) = Some (d, y :: r).
@@ -354,6 +371,26 @@ Proof.
   destruct d; [congruence|reflexivity].
 Qed.
 
+Lemma digs_hd d : digs d = true -> exists d0 d', d = d0 :: d' /\ 48 <= d0 <= 57.
+Proof.
+  destruct d as [|d0 d']; [discriminate|]. cbn [digs forallb]. intros H. apply andb_true_iff in H as [H _].
+  exists d0, d'. split; [reflexivity|]. apply is_digit_range. exact H.
+Qed.
+
+(* the exponent part of scan_number *)
+Definition sexp (r3 : str) : str * str :=
+  match r3 with
+  | e :: r =>
+      if N.eqb e 101 || N.eqb e 69 then
+        let '(sg, r') := match r with c :: r'' => if N.eqb c c_plus || N.eqb c c_dash then ([c], r'') else ([], r) | [] => ([], r) end in
+        match digits1 cls r' with
+        | Some (ed, r5) => (e :: sg ++ ed, r5)
+        | None => ([], r3)
+        end
+      else ([], r3)
+  | [] => ([], r3)
+  end.
+
 Definition snum_rest (sign r0 : str) : option (str * str) :=
   match digits1 cls r0 with
   | None => None
@@ -361,18 +398,7 @@ Definition snum_rest (sign r0 : str) : option (str * str) :=
       let '(dot, r2) := match r1 with c :: r => if N.eqb c c_dot then ([c], r) else ([], r1) | [] => ([], r1) end in
       let frac := takeb (u_digit cls) r2 in
       let r3 := dropb (u_digit cls) r2 in
-      let '(ex, r4) :=
-        match r3 with
-        | e :: r =>
-            if N.eqb e 101 || N.eqb e 69 then
-              let '(sg, r') := match r with c :: r'' => if N.eqb c c_plus || N.eqb c c_dash then ([c], r'') else ([], r) | [] => ([], r) end in
-              match digits1 cls r' with
-              | Some (ed, r5) => (e :: sg ++ ed, r5)
-              | None => ([], r3)
-              end
-            else ([], r3)
-        | [] => ([], r3)
-        end in
+      let '(ex, r4) := sexp r3 in
       Some (sign ++ d ++ dot ++ frac ++ ex, r4)
   end.
 Lemma scan_number_pos c x : c <> c_dash -> scan_number cls (c :: x) = snum_rest [] (c :: x).
@@ -385,37 +411,52 @@ Proof. apply u_digit_false; chr. Qed.
 Lemma ud_dot : u_digit cls c_dot = false.
 Proof. apply u_digit_false; chr. Qed.
 
-Lemma snum_rest_int sign d r : digs d = true -> snum_rest sign (d ++ c_nl :: r) = Some (sign ++ d, c_nl :: r).
+(* what follows the mantissa: the exponent marker or the newline -- never a digit, a dot, a dash or a plus *)
+Lemma exp_next ex r : exp_ok ex = true -> exists z t, ex ++ c_nl :: r = z :: t /\ (z = 101 \/ z = 69 \/ z = 10).
 Proof.
-  intros Hd. unfold snum_rest. rewrite (digits1_app d c_nl r Hd ud_nl).
-  change (N.eqb c_nl c_dot) with false. cbv iota beta. cbn [takeb dropb]. rewrite ud_nl.
-  change (N.eqb c_nl 101 || N.eqb c_nl 69) with false. cbv iota. rewrite !app_nil_r. reflexivity.
-Qed.
-Lemma snum_rest_dec sign d f r : digs d = true -> digs f = true ->
-  snum_rest sign (d ++ c_dot :: f ++ c_nl :: r) = Some (sign ++ d ++ c_dot :: f, c_nl :: r).
-Proof.
-  intros Hd Hf. unfold snum_rest. rewrite (digits1_app d c_dot _ Hd ud_dot).
-  rewrite N.eqb_refl. cbv iota beta zeta. apply digs_spec in Hf as [_ Hf].
-  rewrite takeb_app_stop, dropb_app_stop by (first [apply (forallb_impl is_digit); [apply u_digit_true|exact Hf] | exact ud_nl]).
-  change (N.eqb c_nl 101 || N.eqb c_nl 69) with false. cbv iota. rewrite !app_nil_r. reflexivity.
+  destruct ex as [|e ex']; [intros _; exists c_nl, r; split; [reflexivity|right; right; reflexivity]|].
+  cbn [exp_ok]. intros H. apply andb_true_iff in H as [H _]. unfold is_e in H. apply orb_true_iff in H.
+  exists e, (ex' ++ c_nl :: r). split; [reflexivity|]. destruct H as [H|H]; apply N.eqb_eq in H; auto.
 Qed.
 
-Lemma digs_hd d : digs d = true -> exists d0 d', d = d0 :: d' /\ 48 <= d0 <= 57.
+Lemma sexp_ok ex r : exp_ok ex = true -> sexp (ex ++ c_nl :: r) = (ex, c_nl :: r).
 Proof.
-  destruct d as [|d0 d']; [discriminate|]. cbn [digs forallb]. intros H. apply andb_true_iff in H as [H _].
-  exists d0, d'. split; [reflexivity|]. apply is_digit_range. exact H.
+  destruct ex as [|e ex']; [intros _; reflexivity|].
+  cbn [exp_ok]. intros H. apply andb_true_iff in H as [He H]. unfold is_e in He. cbn [app sexp]. rewrite He.
+  destruct ex' as [|c r']; [discriminate H|]. unfold is_sign in H. cbn [app].
+  destruct (N.eqb c c_plus || N.eqb c c_dash) eqn:Es.
+  - rewrite (digits1_app r' c_nl r H ud_nl). reflexivity.
+  - change (c :: r' ++ c_nl :: r) with ((c :: r') ++ c_nl :: r). rewrite (digits1_app (c :: r') c_nl r H ud_nl). reflexivity.
 Qed.
 
-(* VERSION does not take an int or a simple decimal followed by a newline *)
-Lemma scan_version_int d r : digs d = true -> scan_version cls (d ++ c_nl :: r) = None.
+Lemma snum_rest_ok sign d fr ex r : digs d = true -> frac_ok fr = true -> exp_ok ex = true ->
+  snum_rest sign (d ++ fr ++ ex ++ c_nl :: r) = Some (sign ++ d ++ fr ++ ex, c_nl :: r).
 Proof.
-  intros Hd. unfold scan_version, scan_version3, scan_version2pre, scan_version2build, scan_d_dot_d.
-  rewrite (digits1_app d c_nl r Hd ud_nl). reflexivity.
+  intros Hd Hfr Hex. destruct (exp_next ex r Hex) as (z & t & Ez & Hz).
+  assert (Hzd : u_digit cls z = false) by (apply u_digit_false; lia).
+  assert (Hzdot : N.eqb z c_dot = false) by (apply neqb; chr).
+  unfold snum_rest. destruct fr as [|x f].
+  - cbn [app]. rewrite Ez, (digits1_app d z t Hd Hzd). rewrite Hzdot. cbv iota beta zeta.
+    cbn [takeb dropb]. rewrite Hzd. rewrite <- Ez, (sexp_ok ex r Hex). reflexivity.
+  - cbn [frac_ok] in Hfr. apply andb_true_iff in Hfr as [Hx Hf]. apply N.eqb_eq in Hx. subst x.
+    cbn [app]. rewrite (digits1_app d c_dot _ Hd ud_dot). rewrite N.eqb_refl. cbv iota beta zeta.
+    pose proof (digs_spec _ Hf) as [_ Hf'].
+    rewrite Ez, takeb_app_stop, dropb_app_stop by (first [apply (forallb_impl is_digit); [apply u_digit_true|exact Hf'] | exact Hzd]).
+    rewrite <- Ez, (sexp_ok ex r Hex). reflexivity.
 Qed.
-Lemma scan_version_dec d f r : digs d = true -> digs f = true -> scan_version cls (d ++ c_dot :: f ++ c_nl :: r) = None.
+
+(* VERSION does not take a number of this form followed by a newline *)
+Lemma scan_version_num d fr ex r : digs d = true -> frac_ok fr = true -> exp_ok ex = true ->
+  scan_version cls (d ++ fr ++ ex ++ c_nl :: r) = None.
 Proof.
-  intros Hd Hf. unfold scan_version, scan_version3, scan_version2pre, scan_version2build, scan_d_dot_d.
-  rewrite (digits1_app d c_dot _ Hd ud_dot). rewrite N.eqb_refl. rewrite (digits1_app f c_nl r Hf ud_nl). reflexivity.
+  intros Hd Hfr Hex. destruct (exp_next ex r Hex) as (z & t & Ez & Hz).
+  assert (Hzd : u_digit cls z = false) by (apply u_digit_false; lia).
+  unfold scan_version, scan_version3, scan_version2pre, scan_version2build, scan_d_dot_d.
+  destruct fr as [|x f].
+  - cbn [app]. rewrite Ez, (digits1_app d z t Hd Hzd). rewrite (neqb z c_dot) by chr. reflexivity.
+  - cbn [frac_ok] in Hfr. apply andb_true_iff in Hfr as [Hx Hf]. apply N.eqb_eq in Hx. subst x.
+    cbn [app]. rewrite (digits1_app d c_dot _ Hd ud_dot). rewrite N.eqb_refl. rewrite Ez, (digits1_app f z t Hf Hzd).
+    unfold opt_tail. rewrite (neqb z c_dot), (neqb z c_dash), (neqb z c_plus) by chr. reflexivity.
 Qed.
 
 Lemma T_num st c r : num_ok c = true -> ls_in st = c ++ c_nl :: r -> ls_spans st = [] ->
@@ -430,34 +471,28 @@ Proof.
   { unfold num_ok in Hn. destruct c as [|c0 cr]; [discriminate|].
     destruct (N.eqb_spec c0 c_dash) as [->|Hnd].
     - (* negative *)
-      destruct (num_body_shape _ Hn) as (d & Hd & Hshape).
-      destruct (digs_hd _ Hd) as (d0 & d' & -> & Hd0).
-      exists c_dash, (cr ++ c_nl :: r). split; [reflexivity|]. split; [right; reflexivity|].
-      split; [apply hd_version; apply u_digit_false; chr|].
-      assert (Hcr : exists t, cr = d0 :: t) by (destruct Hshape as [->|(f & _ & ->)]; eexists; reflexivity).
-      destruct Hcr as (t & Et).
-      split; [rewrite Et; cbn [app]; unfold s_dash3; cbn [prefixb]; rewrite (neqb 45 d0) by lia; rewrite andb_false_r; reflexivity|].
-      split; [rewrite Et; cbn [app]; unfold simple_ops; cbn [try_simple prefixb]; rewrite (neqb 62 d0) by lia; reflexivity|].
-      split; [|split; [rewrite Et; apply alias_of_none_dash; lia|discriminate]].
-      rewrite scan_number_neg. destruct Hshape as [->|(f & Hf & ->)].
-      + apply snum_rest_int. exact Hd.
-      + rewrite <- app_assoc. cbn [app]. exact (snum_rest_dec [c_dash] (d0 :: d') f r Hd Hf).
-    - (* non-negative *)
-      destruct (num_body_shape _ Hn) as (d & Hd & Hshape).
+      destruct (num_body_shape _ Hn) as (d & fr & ex & -> & Hd & Hfr & Hex).
       destruct (digs_hd _ Hd) as (d0 & d' & Ed & Hd0).
-      assert (E0 : c0 = d0 /\ exists t, cr = t).
-      { destruct Hshape as [E|(f & _ & E)]; rewrite Ed in E; inversion E; subst; split; try reflexivity; eexists; reflexivity. }
-      destruct E0 as [-> _].
+      exists c_dash, ((d ++ fr ++ ex) ++ c_nl :: r). split; [reflexivity|]. split; [right; reflexivity|].
+      split; [apply hd_version; apply u_digit_false; chr|].
+      split; [rewrite Ed; cbn [app]; unfold s_dash3; cbn [prefixb]; rewrite (neqb 45 d0) by lia; rewrite andb_false_r; reflexivity|].
+      split; [rewrite Ed; cbn [app]; unfold simple_ops; cbn [try_simple prefixb]; rewrite (neqb 62 d0) by lia; reflexivity|].
+      split; [|split; [rewrite Ed; apply alias_of_none_dash; lia|discriminate]].
+      rewrite scan_number_neg, <- !app_assoc. exact (snum_rest_ok [c_dash] d fr ex r Hd Hfr Hex).
+    - (* non-negative *)
+      destruct (num_body_shape _ Hn) as (d & fr & ex & E & Hd & Hfr & Hex).
+      destruct (digs_hd _ Hd) as (d0 & d' & Ed & Hd0).
+      assert (E0 : c0 = d0) by (rewrite Ed in E; cbn [app] in E; inversion E; reflexivity). subst c0.
       exists d0, (cr ++ c_nl :: r). split; [reflexivity|]. split; [left; exact Hd0|].
-      change (d0 :: cr ++ c_nl :: r) with ((d0 :: cr) ++ c_nl :: r).
-      split; [destruct Hshape as [->|(f & Hf & ->)]; [apply scan_version_int; exact Hd|rewrite <- app_assoc; cbn [app]; apply scan_version_dec; assumption]|].
-      split; [cbn [app]; apply hd_dash3; lia|].
-      split; [cbn [app]; apply hd_ops; lia|].
-      split; [|split; [apply alias_of_none_hd; lia|discriminate]].
-      cbn [app]. rewrite scan_number_pos by chr. change (d0 :: cr ++ c_nl :: r) with ((d0 :: cr) ++ c_nl :: r).
-      destruct Hshape as [->|(f & Hf & ->)].
-      + apply (snum_rest_int [] d r Hd).
-      + rewrite <- app_assoc. cbn [app]. apply (snum_rest_dec [] d f r Hd Hf). }
+      change (d0 :: cr ++ c_nl :: r) with ((d0 :: cr) ++ c_nl :: r). rewrite E, <- !app_assoc.
+      split; [apply scan_version_num; assumption|].
+      split; [rewrite Ed; cbn [app]; apply hd_dash3; lia|].
+      split; [rewrite Ed; cbn [app]; apply hd_ops; lia|].
+      split; [|split; [rewrite Ed; cbn [app]; apply alias_of_none_hd; lia|rewrite Ed; discriminate]].
+      rewrite Ed at 1. cbn [app]. rewrite scan_number_pos by chr.
+      change (d0 :: d' ++ fr ++ ex ++ c_nl :: r) with ((d0 :: d') ++ fr ++ ex ++ c_nl :: r). rewrite <- Ed.
+      rewrite !app_assoc, <- (app_assoc d fr ex), <- !app_assoc.
+      exact (snum_rest_ok [] d fr ex r Hd Hfr Hex). }
   destruct Hgoal as (c0 & s' & Ecs & Hc0 & Hv & Hd3 & Hops & Hnum & Hal & Hne).
   rewrite Ecs in Hin.
   destruct (tstep_emit_pat st c0 s' NUMBER (TVNum c) c (c_nl :: r) Hin Hsp) as (st' & H & _);
